@@ -395,3 +395,75 @@ def keyed_map(ip, S, key_fn, val_fn, n=None, desc="dict", require_distinct=True)
         return val_fn(POS(nm))
     m = SMap(indom, lookup, desc)
     return m
+
+
+def array_equal_hook(ip, A, B):
+    """np.array_equal of two 1-D sequences of numbers: same length and equal entry by entry (forall-prefix fold)."""
+    from pyvc.values import SBool, num_term
+    na, nb = ip.models.len_term(A.n), ip.models.len_term(B.n)
+    cnt = ip.path.ghost.setdefault("aeq_counter", [0])
+    cnt[0] += 1
+
+    def pred(k):
+        a, b = num_term(A.get(k)), num_term(B.get(k))
+        return sym.to_real(a) == sym.to_real(b)
+    P = named_forall(ip, f"AEQ_{cnt[0]}", [], na, pred)
+    saturate(ip)
+    return SBool(z3.And(na == nb, P(na)))
+
+
+def scatter_assign_hook(ip, arr, idx, val, node=None):
+    """result[indices] = values  on a 1-D real array (NumPy fancy assignment).  Stated for pairwise distinct indices -- which is
+    made an obligation of the path, not an assumption -- so that 'last write wins' never matters:
+
+        R'[I(j)] = V(j)                       for 0 <= j < m
+        R'[p]    = R[p]                        when no j < m has I(j) = p          (HAS / H: witness functions)
+    """
+    from pyvc.values import SReal, SSeq, SArr, num_term, real_term
+    p = ip.path
+    I_ = ip.models.as_seq(idx)
+    m = ip.models.len_term(I_.n)
+    scalar = not isinstance(val, (SSeq, SArr))
+    V_ = None if scalar else ip.models.as_seq(val)
+    old = arr.arr
+    new = sym.fresh("scattered", RealArr)
+    tag = new.decl().name().replace("!", "_")
+    HAS = fn("SC_HAS_" + tag, I, B)
+    H = fn("SC_H_" + tag, I, I)
+    ival = lambda j: num_term(I_.get(j))
+    vval = (lambda j: real_term(val)) if scalar else (lambda j: real_term(V_.get(j)))
+    # obligation: indices pairwise distinct (checked at two arbitrary positions)
+    j1, j2 = skolem(ip, "sk_sc1", m), skolem(ip, "sk_sc2", m)
+    index_used(ip, j1)
+    index_used(ip, j2)
+    p.oblige(ip.cur_oid("fancy assignment: indices pairwise distinct"),
+             z3.Implies(z3.And(j1 >= 0, j1 < m, j2 >= 0, j2 < m, j1 != j2), ival(j1) != ival(j2)), kind="pre")
+    if not scalar:
+        p.oblige(ip.cur_oid("fancy assignment: one value per index"), ip.models.len_term(V_.n) == m, kind="pre")
+    s = seqs(ip)
+
+    def pw(k):
+        if _once(ip, f"scatter:{new}:{k}"):
+            inr = z3.And(k >= 0, k < m)
+            p.guards.append(inr)
+            try:
+                ik, vk = ival(k), vval(k)
+            finally:
+                p.guards.pop()
+            p.assume(z3.Implies(inr, z3.And(z3.Select(new, ik) == vk, HAS(ik))))
+            # k read as a position of the array (witness terms H(..) are not positions anybody reads: no H(H(..)) chains)
+            if z3.is_app(k) and k.decl().name().startswith("SC_H_"):
+                return
+            hk = H(k)
+            p.assume(z3.Implies(z3.Not(HAS(k)), z3.Select(new, k) == z3.Select(old, k)))
+            if _once(ip, f"scatterH:{new}:{k}"):
+                add_index(ip, hk)
+                p.guards.append(z3.And(hk >= 0, hk < m))
+                try:
+                    ih = ival(hk)
+                finally:
+                    p.guards.pop()
+                p.assume(z3.Implies(HAS(k), z3.And(hk >= 0, hk < m, ih == k)))
+    s.pointwise.append(pw)
+    arr.arr = new
+    return None
